@@ -181,7 +181,12 @@ def run(prop, tier, replay=None):
     per_action, samples, nontrivial = {}, [], set()
     total_traces = total_events = skipped = 0
     attributed_elsewhere = 0
+    only = os.environ.get("VERIF_ONLY_PROFILE")       # debugging aid: one profile of the property (no evidence)
+    if only:
+        os.environ["VERIF_NO_EVIDENCE"] = "1"
     for profile in PROFILE[prop]:
+        if only and profile != only:
+            continue
         nwalks, depth = T[profile]
         if profile == "fullmid" and depth == 0:
             continue
